@@ -723,7 +723,7 @@ impl Case {
             "worker" => {
                 let state = self.ctl.role_state(Role::Worker);
                 if state != RoleState::AtGate || self.cache.verif_snapshot().queue_len == 0 { skipped = true; }
-                else { let _ = self.ctl.step(Role::Worker, STEP_TIMEOUT); }
+                else { let _ = self.ctl.step(Role::Worker, if self.guards_held > 0 { Duration::from_millis(600) } else { STEP_TIMEOUT }); }
             }
             "sweep" => {
                 match self.ctl.role_state(Role::Sweeper) {
